@@ -899,6 +899,60 @@ def r7(ctx, R):
             R.violation("C08.R7", f.short, "group entry pushed once per chain", loc(f, c), "a group entry is pushed for every #elif, not only for the first of a chain")
 
 
+# ------------------------------------------------------------------ R9
+def r9(ctx, R):
+    """cpp expands a header every time it is named: its text is evaluated against
+    the macro table of that moment.  A per-file "already included" memo in front of
+    the recursive expansion turns the second `#include` of an unguarded header into
+    a no-op, so definitions that depend on macros defined in between are lost."""
+    R.rule("C08.R9", "#include expands the header at every occurrence: the recursive expansion is not gated by a membership test on a collection that only grows (an include-once memo)", floor=1, confirmed=1)
+    f = pp_func(ctx)
+    F = ctx.facts(f, interproc=False)
+    sites = [c for c in calls_in(f.node) if ctx.m.enclosing_func(c) is f and f.qual in ctx.r.resolve_call(f, c)[1]]
+    if not sites:
+        raise AnalysisError("preprocess_file: recursive expansion of #include not found")
+    grows = {}
+    shrinks = set()
+    for c in calls_in(f.node):
+        if isinstance(c.func, ast.Attribute) and isinstance(c.func.value, ast.Name):
+            if c.func.attr in ("add", "append", "update", "extend"):
+                grows.setdefault(c.func.value.id, c)
+            elif c.func.attr in ("remove", "discard", "pop", "clear", "difference_update"):
+                shrinks.add(c.func.value.id)
+    for c in sites:
+        st = ctx.m.enclosing_stmt(c)
+        memo = None
+        # the tests under which the expansion runs: enclosing if/elif arms (the memo is
+        # updated between the test and the expansion, so a fact at the call would be killed)
+        conds = []
+        node = c
+        p_ = ctx.m.parent.get(node)
+        while p_ is not None and p_ is not f.node:
+            if isinstance(p_, ast.If):
+                if any(node is x for x in p_.body):
+                    conds.append((p_.test, True))
+                elif any(node is x for x in p_.orelse):
+                    conds.append((p_.test, False))
+            node, p_ = p_, ctx.m.parent.get(p_)
+        for test, pol in conds:
+            parts = [(test, pol)]
+            if isinstance(test, ast.BoolOp) and ((isinstance(test.op, ast.And) and pol) or (isinstance(test.op, ast.Or) and not pol)):
+                parts = [(v, pol) for v in test.values]
+            for e, pl in parts:
+                if isinstance(e, ast.UnaryOp) and isinstance(e.op, ast.Not):
+                    e, pl = e.operand, not pl
+                if isinstance(e, ast.Compare) and len(e.ops) == 1 and isinstance(e.ops[0], (ast.In, ast.NotIn)) and isinstance(e.comparators[0], ast.Name):
+                    coll = e.comparators[0].id
+                    absent = (isinstance(e.ops[0], ast.In) and pl is False) or (isinstance(e.ops[0], ast.NotIn) and pl is True)
+                    if absent and coll in grows and coll not in shrinks and coll not in f.params:
+                        memo = (coll, unparse(e) if isinstance(e.ops[0], ast.In) else f"not ({unparse(e)})", grows[coll])
+        k = key(f, st)[:90]
+        if memo:
+            R.violation("C08.R9", f.short, k, loc(f, memo[2]), f"the header is expanded only while `{memo[1]}` is false, and `{memo[0]}` only ever grows (line {memo[2].lineno}): the second #include of the same header in one file is skipped, although cpp evaluates it again against the current macro table (`#include <kinds.inc>` / `#define WANT_DOUBLE` / `#include <kinds.inc>` loses what the header defines under WANT_DOUBLE)")
+        else:
+            R.ok("C08.R9", f.short, k, loc(f, c), "expanded at every occurrence (no grow-only visited set in front of it)")
+
+
 def run(ctx, R):
     r7(ctx, R)
     r1(ctx, R)
@@ -908,3 +962,4 @@ def run(ctx, R):
     r5(ctx, R)
     r6(ctx, R)
     r8(ctx, R)
+    r9(ctx, R)
